@@ -52,11 +52,23 @@ static void div_case(void) {
   }
   /* the documented domain: main variable of the divisor not above that of the dividend, dividend non-constant for reductions */
   long xa = topvar(A), xb = topvar(B);
+  /* sometimes both operands are external polynomials built under the previous variable order: the operation is the first call
+     that sees them after the order has been reversed (pseudo-division, reduction, exact division and divisibility only: their
+     domain does not depend on the divisor being monic in the new main variable) */
+  char* tokA = 0; char* tokB = 0;
+  if (nv > 1 && op != 1 && op != 2 && chance(15) && !lp_polynomial_is_constant(A) && !lp_polynomial_is_constant(B)) {
+    lp_polynomial_t* TA = lp_polynomial_new_copy(A); lp_polynomial_t* TB = lp_polynomial_new_copy(B);
+    lp_polynomial_set_external(A); lp_polynomial_set_external(B);
+    tokA = hp_tok(A); tokB = hp_tok(B);
+    hp_stale_begin();
+    xa = hp_topvar_twin(TA); xb = hp_topvar_twin(TB);
+    lp_polynomial_delete(TA); lp_polynomial_delete(TB);
+  }
   int ok_dom = xa >= 0 && (xb < 0 || lp_variable_order_cmp(hp_order, (lp_variable_t)xb, (lp_variable_t)xa) <= 0);
   /* outputs in every prior state: fresh, constant, polynomial of another shape */
   lp_polynomial_t* D = hp_dest(ri, rnd(3)); lp_polynomial_t* R = hp_dest(ri, rnd(3));
   lp_polynomial_t* P = hp_dest(ri, rnd(3));
-#define HEAD(nm) sb_begin("div", nm); sb_sp(); hp_ring_token(ri); sb_sp(); sb_long(xa); sb_sp(); sb_poly(A); sb_sp(); sb_poly(B); sb_arrow()
+#define HEAD(nm) sb_begin("div", nm); sb_sp(); hp_ring_token(ri); sb_sp(); sb_long(xa); sb_sp(); if (tokA) sb_str(tokA); else sb_poly(A); sb_sp(); if (tokB) sb_str(tokB); else sb_poly(B); sb_arrow()
   /* aliasing: an output may be one of the inputs (the result is read back from that object) */
   int al = rnd(10);      /* 0: first output = A, 1: first output = B, 2: second output = A, 3: second output = B, else none */
   lp_polynomial_t* O1 = al == 0 ? A : al == 1 ? B : D;       /* quotient (or the single output) */
@@ -74,12 +86,13 @@ static void div_case(void) {
   case 6: if (!ok_dom) break; HEAD("spdivrem"); lp_polynomial_spdivrem(O1, O2, A, B); sb_sp(); sb_poly(O1); sb_sp(); sb_poly(O2); sb_emit(); break;
   case 7: if (!ok_dom) break; HEAD("reduce"); lp_polynomial_reduce(A, B, P, D, R); sb_sp(); sb_poly(P); sb_sp(); sb_poly(D); sb_sp(); sb_poly(R); sb_emit(); break;
   default: { /* divisibility: does B divide A ; also scaled / content variants */
-    if (chance(30)) { lp_integer_t c; lp_integer_construct_from_int(lp_Z, &c, 2 + rnd(3)); lp_polynomial_mul_integer(B, B, &c); lp_integer_destruct(&c); xb = topvar(B); }
+    if (!tokA && chance(30)) { lp_integer_t c; lp_integer_construct_from_int(lp_Z, &c, 2 + rnd(3)); lp_polynomial_mul_integer(B, B, &c); lp_integer_destruct(&c); xb = topvar(B); }
     if (lp_polynomial_is_zero(B)) break;
-    xa = topvar(A);
+    if (!tokA) xa = topvar(A);
     if (!(xa >= 0 && (xb < 0 || lp_variable_order_cmp(hp_order, (lp_variable_t)xb, (lp_variable_t)xa) <= 0))) break;
     HEAD("divides"); sb_sp(); sb_long(lp_polynomial_divides(B, A)); sb_emit(); break; }
   }
+  hp_stale_end(); free(tokA); free(tokB);
   lp_polynomial_delete(A); lp_polynomial_delete(B); lp_polynomial_delete(Q0); lp_polynomial_delete(R0);
   lp_polynomial_delete(D); lp_polynomial_delete(R); lp_polynomial_delete(P);
 }
